@@ -16,7 +16,7 @@ encode = state_write_content + state_write_thread).  The model is tied to the C 
            of the theorems);
   route C  damaged files (truncations, byte changes with the CRC repaired, wild counts): the model and the real
            loader must agree on accept / reject, and on the state when they accept."""
-import os, sys, json, time, threading, subprocess, shutil, re, resource, struct
+import os, sys, json, time, threading, subprocess, shutil, re, resource, struct, hashlib
 from concurrent.futures import ThreadPoolExecutor
 from common import *
 import c10_lib as L
@@ -138,7 +138,7 @@ class Ctx:
             v = data[7] - 48
             st['versions'][v] = st['versions'].get(v, 0) + 1
             st['hashsizes'][s['hs']] = st['hashsizes'].get(s['hs'], 0) + 1
-            self.distinct.add(crc32c(data))
+            self.distinct.add(hashlib.sha1(data).digest())
 
 
 def compare_dumps(ctx, A, s, now, tag, replay):
@@ -621,7 +621,9 @@ def main(tier, replay=None):
     if r.returncode != 0:
         raise RuntimeError('shim build failed: ' + r.stdout)
 
+    t_ob = time.time()
     ob = check_obligations('C10')
+    phases = {'build+snapshot_s': round(t_ob - chk.t0, 1), 'obligations_s': round(time.time() - t_ob, 1)}
     proof_coverage(chk, ob, 'make -f Makefile.coq -k Props/Properties_C10.vo (coqc 8.16.1, full .vo) + Print Assumptions',
                    ['Coq 8.16.1 kernel incl. vm_compute',
                     'coq/Codec/CodecModel.v is a hand transcription of state_read_content / state_write_content / state_write_thread '
@@ -647,6 +649,8 @@ def main(tier, replay=None):
     if tool[0] is None:
         chk.violation('build', 'working tree does not build: ' + (tool[1] or '')[:500], {'error': (tool[1] or '')[:4000]}, no_input=True)
         return chk.finish()
+    phases['model_build_s'] = round(time.time() - t_ob - phases['obligations_s'], 1)
+    t_run = time.time()
     ctx = Ctx(chk, tool[0], shim, Model(model_exe))
     base = mkscratch('c10.')
     rng = chk.rng
@@ -665,11 +669,11 @@ def main(tier, replay=None):
         elif c['kind'] == 'scenario':
             scenario(ctx, 9000 + ncorpus, c['seed'], c['steps'], os.path.join(base, 'corp%d' % ncorpus))
 
-    nscen = 40 if thorough else 14
-    steps = 8 if thorough else 6
-    ngen = 600 if thorough else 110
-    nbig = 24 if thorough else 4
-    nmal = 1500 if thorough else 260
+    nscen = 80 if thorough else 24
+    steps = 9 if thorough else 7
+    ngen = 1500 if thorough else 250
+    nbig = 40 if thorough else 8
+    nmal = 4000 if thorough else 600
     jobs = []
     with ThreadPoolExecutor(max_workers=NCPU) as ex:
         for i in range(nscen):
@@ -677,7 +681,9 @@ def main(tier, replay=None):
         for i in range(ngen):
             jobs.append(ex.submit(gen_case, ctx, i, rng.getrandbits(48), os.path.join(base, 'B%d' % i), False))
         for i in range(nbig):
-            jobs.append(ex.submit(gen_case, ctx, 5000 + i, rng.getrandbits(48), os.path.join(base, 'G%d' % i), True))
+            jobs.append(ex.submit(gen_case, ctx, 5000 + i, rng.getrandbits(48), os.path.join(base, 'G%d' % i), 1))
+        for i in range(2 if thorough else 0):
+            jobs.append(ex.submit(gen_case, ctx, 6000 + i, rng.getrandbits(48), os.path.join(base, 'H%d' % i), 2))
         for j in jobs:
             try:
                 j.result()
@@ -685,6 +691,8 @@ def main(tier, replay=None):
                 import traceback
                 chk.violation('harness', 'harness error: %r %s' % (e, traceback.format_exc()[-600:]), {'error': repr(e)}, no_input=True)
 
+    phases['routes_AB_s'] = round(time.time() - t_run, 1)
+    t_c = time.time()
     # ---- route C: damaged versions of the valid files collected above ----
     files = [x for x in ctx.valid_files if len(x[1]) < 4000]
     geoms = {}
@@ -729,6 +737,8 @@ def main(tier, replay=None):
                 import traceback
                 chk.violation('harness', 'harness error: %r %s' % (e, traceback.format_exc()[-600:]), {'error': repr(e)}, no_input=True)
 
+    phases['route_C_s'] = round(time.time() - t_c, 1)
+    chk.cov['phases'] = phases
     # ---- verdict on the obligations ----
     if ob['failed']:
         found = [v for v in chk.violations if not v[2]]
